@@ -1216,7 +1216,29 @@ impl Zoned {
         // here.
         let offset = match ambts.offset() {
             AmbiguousOffset::Unambiguous { offset } => offset,
-            AmbiguousOffset::Gap { after, .. } => after,
+            AmbiguousOffset::Gap { after, .. } => {
+                // The last instant of this day is the one right before the
+                // transition that created the gap. The earlier instant is
+                // only that when the gap begins at least its own length
+                // before midnight. For example, in `America/Toronto` on
+                // `1919-03-30`, the clocks were moved from `23:30` to `00:30`
+                // on the next day. So the last time on that day is
+                // `23:29:59.999999999`, and not `22:59:59.999999999` (which is
+                // the end of the civil day shifted by the length of the gap).
+                let tz = self.time_zone();
+                let earlier = after.to_timestamp(end_of_civil_day)?;
+                if let Some(trans) = tz.following(earlier).next() {
+                    let before_trans = trans
+                        .timestamp()
+                        .checked_sub(SignedDuration::from_nanos(1))
+                        .unwrap_or(earlier);
+                    let end = before_trans.to_zoned(tz.clone());
+                    if end.date() == end_of_civil_day.date() {
+                        return Ok(end);
+                    }
+                }
+                after
+            }
             AmbiguousOffset::Fold { after, .. } => after,
         };
         offset
